@@ -55,6 +55,11 @@ impl<P: Problem> Selection<P> for DERand {
         rng: &mut Random,
     ) -> ExecResult<Vec<&'a Individual<P>>> {
         let size = (self.y * 2 + 1) as usize;
+        ensure!(
+            population.len() >= size,
+            "the population does not contain enough individuals to select {} unique ones",
+            size
+        );
         let selection = (0..population.len())
             .flat_map(|_| population.choose_multiple(rng, size))
             .collect();
@@ -108,6 +113,11 @@ impl<P: SingleObjectiveProblem> Selection<P> for DEBest {
         rng: &mut Random,
     ) -> ExecResult<Vec<&'a Individual<P>>> {
         let size = (self.y * 2) as usize;
+        ensure!(
+            population.len() >= size,
+            "the population does not contain enough individuals to select {} unique ones",
+            size
+        );
         let best = f::best(population).wrap_err("population is empty")?;
         let selection = (0..population.len())
             .flat_map(|_| {
@@ -167,19 +177,22 @@ impl<P: SingleObjectiveProblem> Selection<P> for DECurrentToBest {
     ) -> ExecResult<Vec<&'a Individual<P>>> {
         let size = (self.y * 2 - 1) as usize;
         let best = f::best(population).wrap_err("population is empty")?;
-        let selection = population
-            .iter()
-            .flat_map(|individual| {
-                let mut selection = vec![individual, best];
+        let mut selection = Vec::new();
+        for individual in population {
+            selection.push(individual);
+            selection.push(best);
 
-                // Sample only individuals randomly that are not `individual`
-                let remaining_population: Vec<_> =
-                    population.iter().filter(|&i| i != individual).collect();
+            // Sample only individuals randomly that are not `individual`
+            let remaining_population: Vec<_> =
+                population.iter().filter(|&i| i != individual).collect();
+            ensure!(
+                remaining_population.len() >= size,
+                "the population does not contain enough other individuals to select {} unique ones",
+                size
+            );
 
-                selection.extend(remaining_population.choose_multiple(rng, size));
-                selection
-            })
-            .collect();
+            selection.extend(remaining_population.choose_multiple(rng, size));
+        }
         Ok(selection)
     }
 }
